@@ -2,7 +2,7 @@
 EXTENDS TdmsData
 c_NVals == {1, 2, 3}
 c_KVals == {1, 2, 3}
-c_NValsQ == {1, 2}
+c_NValsQ == {1, 3}
 c_KValsQ == {1, 3}
 c_Steps == {1, 2, 3, -1, -2, -3}
 ====
